@@ -27,9 +27,14 @@ CHECKS = {
     },
     "C03": {
         "level": "fault_enumeration",
-        "quick": {"shards": 16, "rounds": 1, "checks": 100, "timeout": 900},
-        "thorough": {"shards": 16, "rounds": 4, "checks": 500, "timeout": 3000},
-        "assumptions": [],
+        "quick": {"shards": 16, "rounds": 1, "checks": 40, "timeout": 900},
+        "thorough": {"shards": 16, "rounds": 4, "checks": 300, "timeout": 3000},
+        "exhaustive_subspace": "torn sub-check, thorough tier: every byte offset inside the last transaction's log range when the range is <= 400 bytes; everything else is sampled",
+        "assumptions": [
+            "crash = process death at a hook site (child os.Exit); torn final write = truncation of the newest log file inside the last transaction's byte range",
+            "concurrent visibility is decided per recorded execution; schedules are perturbed by a generated yield plan at batch/commit hook sites, not enumerated",
+            "a commit failure can only be provoked through inputs, not through I/O errors",
+        ],
     },
     "C04": {
         "level": "exploration",
@@ -79,9 +84,12 @@ CHECKS = {
     },
     "C11": {
         "level": "exploration",
-        "quick": {"shards": 16, "rounds": 1, "checks": 100, "timeout": 900},
-        "thorough": {"shards": 16, "rounds": 4, "checks": 500, "timeout": 3000},
-        "assumptions": [],
+        "quick": {"shards": 16, "rounds": 1, "checks": 600, "timeout": 900},
+        "thorough": {"shards": 16, "rounds": 6, "checks": 1000, "timeout": 3000},
+        "assumptions": [
+            "keys are non-empty and at most 65535 bytes (16-bit key length of the block format); values up to 1.5 MiB",
+            "corruption = exactly one byte of the finished file XORed with a non-zero mask; a non-terminating read is counted, not judged",
+        ],
     },
     "C12": {
         "level": "exploration",
@@ -121,9 +129,14 @@ CHECKS = {
     },
     "C18": {
         "level": "exploration", "race": True,
-        "quick": {"shards": 16, "rounds": 1, "checks": 100, "timeout": 900},
-        "thorough": {"shards": 16, "rounds": 4, "checks": 500, "timeout": 3000},
-        "assumptions": [],
+        # three TestProp functions (table, pool, concurrent) x checks cases per process
+        "quick": {"shards": 16, "rounds": 1, "checks": 600, "timeout": 900},
+        "thorough": {"shards": 16, "rounds": 8, "checks": 800, "timeout": 3000},
+        "assumptions": [
+            "single writer (the memtable's documented contract); SetImmutable is called by the writer between writes, as MemTablePool does under its lock",
+            "goroutine interleavings are not controlled: the concurrent part checks recorded observations of real executions and cannot replay a schedule",
+            "non-empty keys (engine-level precondition)",
+        ],
     },
     "C19": {
         "level": "exploration",
@@ -133,8 +146,15 @@ CHECKS = {
     },
     "C20": {
         "level": "exploration",
-        "quick": {"shards": 16, "rounds": 1, "checks": 100, "timeout": 900},
-        "thorough": {"shards": 16, "rounds": 4, "checks": 500, "timeout": 3000},
-        "assumptions": [],
+        "env": {"VERIF_OFF": "nonfinite_ratio"},
+        "quick": {"shards": 16, "rounds": 1, "checks": 600, "timeout": 900},
+        "thorough": {"shards": 16, "rounds": 6, "checks": 1200, "timeout": 3000},
+        "exhaustive_subspace": "all truncation lengths (every strict prefix 0..len-1, plus the full length) of each generated stored manifest, at config.LoadConfigFromManifest and (engine sub-check, all_trunc cases) at engine.NewEngineFacade",
+        "assumptions": [
+            "validity is decided by an independent table transcribed from the error messages of config.Config.Validate; fields without a message are unconstrained",
+            "string fields hold valid UTF-8 (JSON cannot carry other byte strings)",
+            "engine cases: the memtable size accounting counts at least the payload bytes and at most 8x the payload of a single entry",
+            "engine cases wait for the background flush after every write (no wall-clock bound is a verdict)",
+        ],
     },
 }
